@@ -26,27 +26,8 @@ cat $base/summary.txt
 echo "---- details of benign alarms:"
 for f in $base/benign:*.detail; do cat $f; done
 mkdir -p /tmp/reeval_last && rm -rf /tmp/reeval_last/* && cp $base/*.detail $base/summary.txt /tmp/reeval_last/ 2>/dev/null
-if [ -n "$UPDATE" ]; then python3 - <<'PY'
-# rewrite seeded/<id>/checks.txt from the scan details (format read by seed_finalize.py)
-import glob, os, re, collections
-for f in glob.glob('/tmp/reeval_last/seed:*.detail'):
-    sid = os.path.basename(f)[5:-7]
-    by = collections.OrderedDict()
-    for l in open(f):
-        m = re.match(r'\s*seed:\S+: (C\d+) (violated|undecided) (\S+) (.*)', l)
-        if m:
-            by.setdefault(m.group(1), []).append('violated: %s %s' % (m.group(3), m.group(4).strip()))
-        m = re.match(r'\s*seed:\S+: (C\d+) anchor-unresolved (.*)', l)
-        if m:
-            by.setdefault(m.group(1), []).append('checker failure: anchor unresolved ' + m.group(2))
-    d = '/verif/seeded/%s/' % sid
-    if os.path.isdir(d):
-        with open(d + 'checks.txt', 'w') as out:
-            for p, ls in by.items():
-                out.write('== %s exit=1\n' % p)
-                for x in ls[:6]:
-                    out.write(x + '\n')
-PY
+if [ -n "$UPDATE" ]; then
+for f in /tmp/reeval_last/seed:*.detail; do sid=$(basename $f .detail); sid=${sid#seed:}; [ -d /verif/seeded/$sid ] && python3 /verif/scan2checks.py $f /verif/seeded/$sid; done
 python3 /verif/seed_finalize.py | grep -c "detected by \[" | sed 's/^/seeds detected: /'
 fi
 rm -rf $base
